@@ -17,8 +17,8 @@ BIGFRAME = 2 ** 24 - 1
 BOUNDS = {
     'advertised connection window': '0..2^31-1 (symbolic)',
     'advertised stream windows': '-2^31..2^31-1 (symbolic; negative after a shrink)',
-    'max_window_size / _bytes_processed': '0..2^31-1 each (symbolic; only cur <= max is '
-                                          'assumed)',
+    'max_window_size / _bytes_processed': '0..2^31-1 each (symbolic, constrained only by the '
+                                          'representation invariant)',
     'DATA payload / padding': '0..2^24-300 / none or 0..255 (symbolic)',
     'increment argument': '-2^31..2^32 (symbolic)',
     'acknowledged size': '-2^31..2^31 (symbolic)',
@@ -29,10 +29,10 @@ OUTSIDE = ['more than 3 streams']
 ASSUMPTIONS = [
     'inductive pre-state: library window == advertised window (ghost), every integer '
     'content of the two window managers arbitrary',
-    'representation invariant of a WindowManager: 0 <= max_window_size - current_window_size '
-    '<= 2^31-1.  Argument: window_consumed leaves current >= 0 (else it raises), so max-cur <= '
-    'max <= 2^31-1 right after it; window_opened and the automatic update only shrink max-cur '
-    '(never below 0); a settings delta moves max and cur together',
+    'representation invariant of every WindowManager (connection, stream 1, stream 3): '
+    'cur <= max <= 2^31-1 and max - cur <= 2^31-1.  It is assumed of the pre-state and '
+    're-proved of the post-state by every step harness (clause invariant-not-preserved), '
+    'which is what lets one step stand for histories of any length',
     'hyperframe delivers DATA with 0 <= pad_length <= 255 and pad_length < body length',
 ]
 
@@ -58,16 +58,32 @@ def _pre(me):
     cm = sym_int('conn_max', 0, INT31, default=65535)
     cp = sym_int('conn_proc', 0, INT31, default=0)
     s1 = sym_int('s1_cur', -INT31 - 1, INT31, default=65535)
-    m1 = sym_int('s1_max', 0, INT31, default=65535)
+    m1 = sym_int('s1_max', -INT31 - 1, INT31, default=65535)
     p1 = sym_int('s1_proc', 0, INT31, default=0)
     s3 = sym_int('s3_cur', -INT31 - 1, INT31, default=65535)
+    m3 = sym_int('s3_max', -INT31 - 1, INT31, default=65535)
     from engine.core import assume_z
     # representation invariant 0 <= max - cur <= 2^31-1 (see ASSUMPTIONS)
-    assume_z(s_and(s_le(cc, cm), s_le(s1, m1), s_le(m1 - s1, INT31)))
+    assume_z(s_and(s_le(cc, cm), s_le(cm - cc, INT31), s_le(s1, m1), s_le(m1 - s1, INT31),
+                   s_le(s3, m3), s_le(m3 - s3, INT31)))
     A.set_wm(A.conn_wm(me), cc, cm, cp)
     A.set_wm(A.stream_wm(me, 1), s1, m1, p1)
-    A.set_wm(A.stream_wm(me, 3), s3, A.stream_wm(me, 3).max_window_size, 0)
+    A.set_wm(A.stream_wm(me, 3), s3, m3, 0)
     return cc, s1, s3
+
+
+def _inv(me, tag):
+    """the representation invariant assumed by _pre is re-established by the step (this is
+    what makes the one-step argument cover histories of any length)"""
+    A = h2h.Adapter
+    for name, wm in (('conn', A.conn_wm(me)), ('s1', A.stream_wm(me, 1)),
+                     ('s3', A.stream_wm(me, 3))):
+        if wm is None:
+            continue
+        c, m = wm.current_window_size, wm.max_window_size
+        check(s_and(s_le(c, m), s_le(m - c, INT31), s_le(m, INT31)),
+              'invariant-not-preserved:' + name,
+              (tag, c, m))
 
 
 def _cur(me):
@@ -148,6 +164,7 @@ def h_recv_data(client, padded):
             if not end:
                 check(me.remote_flow_control_window(1) == s_min(gc2, g12),
                       'remote-window-after-data', None)
+            _inv(me, 'data')
     return h
 
 
@@ -168,11 +185,13 @@ def h_increment(client, on_stream):
             check(s_not(valid), 'valueerror-on-valid-increment', inc)
             check(out.nbytes() == 0, 'raise-emits', None)
             _same(me, pre, 'raise-changes-window')
+            _inv(me, 'increment-raised')
         except h2.exceptions.FlowControlError:
             note('overflow')
             check(s_and(valid, over), 'flowcontrolerror-without-overflow', (inc, target))
             check(out.nbytes() == 0, 'raise-emits', None)
             _same(me, pre, 'raise-changes-window')
+            _inv(me, 'increment-raised')
         else:
             note('credited')
             check(s_and(valid, s_not(over)), 'overflowing-increment-accepted', (inc, target))
@@ -186,6 +205,7 @@ def h_increment(client, on_stream):
                   'window-after-increment', cur)
             check(me.remote_flow_control_window(1) == s_min(g[0], g[1]),
                   'remote-window-after-increment', None)
+            _inv(me, 'increment')
     return h
 
 
@@ -214,6 +234,7 @@ def h_acknowledge(client):
                   cur)
             check(me.remote_flow_control_window(1) == s_min(g[0], g[1]),
                   'remote-window-after-ack', None)
+            _inv(me, 'acknowledge')
     return h
 
 
@@ -257,6 +278,7 @@ def h_settings(client):
                   'window-after-ack-of-settings', cur)
             check(me.remote_flow_control_window(1) == s_min(g[0], g[1]),
                   'remote-window-after-settings', None)
+            _inv(me, 'settings')
     return h
 
 
